@@ -1155,7 +1155,7 @@ def check_type(base_ring=None, dtype=None, like=None,
     elif dtype is None:
         dtype = default_dtype
 
-    if not integer_type and np.can_cast(dtype, int):
+    if not integer_type and np.dtype(dtype).kind in 'biu':
         dtype = np.dtype('float64')
 
     return (base_ring, dtype)
